@@ -106,12 +106,33 @@ def judge(run, bp, interps, cards, subcheck, nontrivial_hint=False):
                  kind, detail, show(b0), show(b1), show(loc)))
 
 
-def case_strategy(cfg):
+def case_strategy(cfg, family=None):
     @st.composite
     def s(draw):
         g = G(cfg=cfg, rnd=draw(st.randoms(use_true_random=True)))
         ty = g.ty()
-        t = g.term(ty)
+        if family == "array-literals":
+            # relations between array values (nested, with non-constant contents): the simplifier folds
+            # equalities / selects / stores over "constant" arrays
+            at = g.array_type()
+            if g.pct(50):
+                at = ("Array", g.index_type(), at) if g.pct(50) else ("Array", at[1], ("Array", g.index_type(), at[2]))
+            a, b = g.array_literal(at, 2), g.array_literal(at, 2)
+            k = g.rnd.randrange(4)
+            if k == 0:
+                t = app("EQUALS", a, b)
+            elif k == 1:
+                t = app("EQUALS", a, g.term(at, 2))
+            elif k == 2 and at[2] != BOOL:
+                i = g.term(at[1], 1)
+                t = app("EQUALS", app("ARRAY_SELECT", a, i), app("ARRAY_SELECT", b, i))
+            else:
+                i, j = g.term(at[1], 1), g.term(at[1], 1)
+                t = app("EQUALS", app("ARRAY_STORE", app("ARRAY_STORE", a, i, g.term(at[2], 1)), j, g.term(at[2], 1)), b)
+            if g.pct(30):
+                t = app("ITE", g.term(BOOL, 1), t, g.term(BOOL, 1))
+        else:
+            t = g.term(ty)
         cards = g.cards()
         syms = reffv(t)
         cards = {k: v for k, v in cards.items()}
@@ -128,6 +149,7 @@ CFGS = {
     "bv": Cfg(theories={"bool", "bv", "quant"}, bv_widths=[1, 2, 3, 4, 8], max_depth=5),
     "str": Cfg(theories={"bool", "int", "str"}, max_depth=3),
     "arr": Cfg(theories={"bool", "int", "bv", "arr", "uf"}, bv_widths=[1, 2, 4], max_depth=4),
+    "array-literals": Cfg(theories={"bool", "int", "bv", "arr"}, bv_widths=[1, 2], max_depth=2, nsyms=2, small_ints=True),
 }
 
 
@@ -138,7 +160,7 @@ def shard_random(shard, seed, n, cfgname):
     def body(case):
         t, interps, cards = case
         judge(run, t, interps, cards, "random/" + cfgname)
-    drive(body, case_strategy(cfg), n, derive_seed(seed, "c01", cfgname, shard))
+    drive(body, case_strategy(cfg, family=cfgname), n, derive_seed(seed, "c01", cfgname, shard))
     return run
 
 
@@ -203,7 +225,8 @@ def main():
     per = 40000 if thorough else 2500
     wmax = 6 if thorough else 4
     jobs = []
-    weights = {"general": 5, "shallow-const": 4, "unbounded-binders": 1, "arith": 2, "bv": 2, "str": 2, "arr": 2}
+    weights = {"general": 5, "shallow-const": 4, "unbounded-binders": 1, "arith": 2, "bv": 2, "str": 2, "arr": 2,
+               "array-literals": 2}
     for name, wgt in weights.items():
         for sh in range(wgt):
             jobs.append((shard_random, dict(shard=sh, seed=chk.seed, n=per, cfgname=name)))
